@@ -57,6 +57,14 @@ impl SwiftField for Field57A {
             });
         }
 
+        if lines.len() > bic_line_idx + 1 {
+            return Err(ParseError::InvalidFormat {
+                message: format!(
+                    "Field 57A has {} line(s) after the BIC",
+                    lines.len() - bic_line_idx - 1
+                ),
+            });
+        }
         let bic = parse_bic(lines[bic_line_idx])?;
 
         Ok(Field57A {
